@@ -501,13 +501,14 @@ _NOCONST = object()
 
 class AV(object):
     __slots__ = ("kind", "dtype", "origin", "shape", "sym", "alg", "sign", "mono", "const", "expo",
-                 "items", "elem", "obj", "tags", "indef", "dmust", "dmay", "dvals", "ref", "note", "f0", "ext", "rel")
+                 "items", "elem", "obj", "tags", "indef", "dmust", "dmay", "dvals", "ref", "note", "f0", "ext", "rel", "parts")
 
     def __init__(self, kind=K_TOP, dtype="top", origin=frozenset(), shape=None, sym=None, alg=None,
                  sign=S_ANY, mono=frozenset(), const=_NOCONST, expo=None, items=None, elem=None, obj=None,
                  tags=frozenset(), indef=False, dmust=None, dmay=None, dvals=None, ref=None, note=None,
-                 f0=False, ext=None, rel=None):
+                 f0=False, ext=None, rel=None, parts=None):
         self.kind = kind
+        self.parts = parts  # 1-D array assembled from pieces: (("const", c) | ("sym", repr) | ("arr", tags) ...), in order; None = not tracked
         self.dtype = dtype
         self.origin = origin
         self.shape = shape
@@ -706,7 +707,7 @@ def join_av(a, b):
               dmust=(a.dmust & b.dmust) if (a.dmust is not None and b.dmust is not None) else None,
               dmay=(a.dmay | b.dmay) if (a.dmay is not None and b.dmay is not None) else None,
               dvals=dvals, ref=a.ref if a.ref == b.ref else None, ext=a.ext if a.ext == b.ext else None,
-              rel=a.rel if a.rel == b.rel else None,
+              rel=a.rel if a.rel == b.rel else None, parts=a.parts if a.parts == b.parts else None,
               note=a.note if a.note == b.note else None)
 
 
